@@ -473,7 +473,9 @@ def parseJson (j : Json) (nodeCount : Nat) : Except SchemaErr SchemaMut :=
 structure PcfState where
   out : String := ""
   written : List Nat := []       -- named types already written in full
-  onPath : List Nat := []        -- unnamed types being written (repair of D2)
+  /-- `unnamed_type_being_written`, sparse: for an array, map or union being written, `1 +` the
+      number of named types written when it was entered (absent = 0 = not being written). -/
+  onPath : List (Nat × Nat) := []
   deriving Repr, Inhabited
 
 def joinWith (sep : String) : List String → String
@@ -493,11 +495,15 @@ def pcf (S : SchemaMut) : Nat → Nat → PcfState → Except SchemaErr PcfState
       let named (name : Name) (full : PcfState → Except SchemaErr PcfState) : Except SchemaErr PcfState :=
         if st.written.contains key then .ok { st with out := st.out ++ "\"" ++ name.fq ++ "\"" }
         else full { st with written := key :: st.written }
+      -- `enter_unnamed` … restore: meeting the node again is an error only if no named type was
+      -- written since it was entered (`n_named_types_written` is `written.length`)
       let unnamed (body : PcfState → Except SchemaErr PcfState) : Except SchemaErr PcfState :=
-        if st.onPath.contains key then .error .custom
-        else match body { st with onPath := key :: st.onPath } with
+        let gen := st.written.length + 1
+        let prev := (st.onPath.lookup key).getD 0
+        if prev = gen then .error .custom
+        else match body { st with onPath := (key, gen) :: st.onPath.filter (·.1 ≠ key) } with
           | .error e => .error e
-          | .ok st' => .ok { st' with onPath := st'.onPath.erase key }
+          | .ok st' => .ok { st' with onPath := (key, prev) :: st'.onPath.filter (·.1 ≠ key) }
       match node.type with
       | .null => prim "null" | .boolean => prim "boolean" | .bytes => prim "bytes"
       | .double => prim "double" | .float => prim "float" | .int => prim "int"
